@@ -132,7 +132,7 @@ class Report:
                 key = ("K", k["id"])
                 if key not in self._printed:
                     self._printed.add(key)
-                    print("KNOWN-FINDING: property=%s %s" % (self.pid, k["what"]))
+                    print("KNOWN-FINDING: property=%s %s" % (self.pid, k["what"]), file=sys.__stdout__)
                     self.known_seen.append({"id": k["id"], "signature": signature})
                 return False
         key = ("V", signature)
@@ -140,13 +140,14 @@ class Report:
         if key not in self._printed:
             self._printed.add(key)
             tail = "" if failing_input_found else " no-failing-input-found"
-            print("VIOLATION property=%s replay=%s%s" % (self.pid, path, tail))
-            print("  what: %s" % what)
+            out = sys.__stdout__       # checks may silence the library's own prints; verdict lines always reach the real stdout
+            print("VIOLATION property=%s replay=%s%s" % (self.pid, path, tail), file=out)
+            print("  what: %s" % what, file=out)
             if obligation:
-                print("  obligation: %s" % obligation)
+                print("  obligation: %s" % obligation, file=out)
         self.violations.append({"what": what, "signature": signature, "obligation": obligation,
                                 "replay": path, "failing_input_found": failing_input_found})
-        sys.stdout.flush()
+        sys.__stdout__.flush()
         return True
 
     def _write_replay(self, what, signature, payload, obligation, found):
